@@ -3,6 +3,7 @@ import Nstd.Sync.LemmasSem
 import Nstd.Sync.LemmasSignal
 import Nstd.Sync.LemmasMonitor
 import Nstd.Sync.LemmasRun
+import Nstd.Sync.LemmasScenario
 /-
   Property C11 — Mutex, Semaphore, Signal, Monitor and Thread keep their contracts under every interleaving.
 
@@ -173,6 +174,18 @@ theorem signal_set_releases_all_current_waiters {set0 : Bool} {now spur : Nat} {
       simp [Signal.step, hu, hm, Signal.loopHead, hf] at hs; subst hs
       exact ⟨_, rfl, by simp [Signal.goto, upd]⟩
 
+/-- The internal mutex of a Signal is never held for ever: in every reachable state its owner sits at a program
+    point whose next step is enabled (so a released waiter eventually gets the mutex under any fair schedule). -/
+theorem signal_mutex_holder_can_step {set0 : Bool} {now spur : Nat} {s : Signal.St}
+    (h : Signal.Reach set0 now spur s) (v : Tid) (hv : s.m = some v) :
+    (Signal.step s v (.run 0)).isSome = true := by
+  have hh := (Signal.inv_reach h).ownConv v hv
+  cases hp : s.pc v <;> simp [hp, Signal.holds] at hh <;> simp [Signal.step, hp, hv]
+  rename_i dl
+  cases dl with
+  | none => simp
+  | some d => by_cases hd : d.ts.valid = true <;> simp [hd]
+
 example : ∃ s, Signal.Reach false 0 1 s ∧ s.flag = true ∧ s.pc 1 = .wBlocked none ∧ s.pc 2 = .setBcast := by
   refine ⟨_, Signal.reach_runActs [(1, .call .wait), (1, .run 0), (1, .run 0), (2, .call .set), (2, .run 0)] .init rfl, ?_, ?_, ?_⟩ <;> rfl
 
@@ -254,6 +267,10 @@ theorem timed_false_only_after_deadline_signal {set0 : Bool} {now spur : Nat} {s
   cases dl with
   | none => exact absurd rfl hne
   | some d => exact ⟨d, rfl, hall d rfl⟩
+
+example : ∃ s t dl at_ post, Signal.Reach false 999999999 0 s ∧ s.hist = [] ++ .waitRet t false dl at_ :: post := by
+  refine ⟨_, 1, _, _, _, Signal.reach_runActs [(1, .call (.twait 1)), (1, .run 0), (1, .run 0), (1, .tick 1000000), (1, .run 1),
+    (1, .run 0), (1, .run 0)] .init rfl, rfl⟩
 
 /-- Monitor::wait(timeout) returns false only after its time-out has expired; the untimed wait never returns false. -/
 theorem timed_false_only_after_deadline_monitor {now spur : Nat} {s : Monitor.St} (h : Monitor.Reach now spur s)
@@ -347,5 +364,16 @@ theorem join_returns_result (s : Thr.St) (t j : Tid) (hpc : s.pc t = .join j) :
 
 example : ∃ s : Thr.St, s.pc 0 = .join 1 ∧ s.status 1 = .finished 7 :=
   ⟨{ Thr.init with pc := upd Thr.init.pc 0 (.join 1), status := upd Thr.init.status 1 (.finished 7) }, rfl, rfl⟩
+
+/-! ## the driver of the correspondence run -/
+
+/-- The scenario interpreter of the model driver (Scenario.lean) moves the primitive only along `step`: from a
+    reachable state every call / run / tick it performs leads to a reachable state, so every state compared with
+    the implementation in the correspondence run is one the theorems above speak about. -/
+theorem driver_stays_within_model {p : Scen.PrimSt} (h : Scen.PrimReach p) :
+    (∀ t a p', Scen.primRun p t a = some p' → Scen.PrimReach p') ∧
+    (∀ t op p', Scen.primCall p t op = some p' → Scen.PrimReach p') ∧
+    (∀ q, Scen.PrimReach (Scen.primTick p q)) :=
+  ⟨fun _ _ _ hr => Scen.primRun_reach h hr, fun _ _ _ hr => Scen.primCall_reach h hr, fun _ => Scen.primTick_reach h⟩
 
 end Nstd.Sync
